@@ -230,34 +230,39 @@ theorem consumeName_strict (s : St) (h : (consumeName s).1 = true) : AdvS s (con
     exact AdvS.of_consume (nextIs_rest hn) (consumeWhile_adv _ _)
   · rename_i hn; simp [hn] at h
 
+theorem consumeIntegerDigits_adv (s : St) : Adv s (consumeIntegerDigits s).2 ∧
+    ((consumeIntegerDigits s).1 = true → AdvS s (consumeIntegerDigits s).2) := by
+  unfold consumeIntegerDigits
+  split
+  · rename_i h
+    exact ⟨.consume1 (next_some_rest h), fun _ => AdvS.of_consume (next_some_rest h) (.refl _)⟩
+  · split
+    · exact ⟨.refl _, fun h => by cases h⟩
+    · rename_i hd
+      have hd' : s.nextIs isDigit = true := by simpa using hd
+      have hne := nextIs_rest hd'
+      refine ⟨consumeWhile_adv _ _, fun _ => ?_⟩
+      -- the first iteration of the digit loop consumes
+      unfold consumeWhile
+      cases hl : s.rest.length with
+      | zero => exact absurd (List.length_eq_zero_iff.mp hl) hne
+      | succ n =>
+        rw [loop_succ]
+        have hc : (!s.done && s.nextIs isDigit) = true := by
+          simp [hd', (not_done_iff s).2 hne]
+        simp only [hc, if_true]
+        exact AdvS.of_consume hne (loop_adv _ _ (fun _ hc => .consume1 (whileCond_rest hc)) _ _)
+
 theorem consumeIntegerPart_adv (s : St) : Adv s (consumeIntegerPart s).2 ∧
     ((consumeIntegerPart s).1 = true → AdvS s (consumeIntegerPart s).2) := by
   unfold consumeIntegerPart
-  simp only
   have h0 : Adv s (if s.next = some 45 ∧ isDigit s.peek = true then consumeRune s else s) := by
     split
     · rename_i h; exact .consume1 (next_some_rest h.1)
     · exact .refl _
   generalize (if s.next = some 45 ∧ isDigit s.peek = true then consumeRune s else s) = s1 at h0
-  split
-  · rename_i h
-    exact ⟨h0.trans (.consume1 (next_some_rest h)), fun _ => h0.trans_advS (AdvS.of_consume (next_some_rest h) (.refl _))⟩
-  · split
-    · exact ⟨h0, fun h => by cases h⟩
-    · rename_i hd
-      have hd' : s1.nextIs isDigit = true := by simpa using hd
-      have hne := nextIs_rest hd'
-      refine ⟨h0.trans (consumeWhile_adv _ _), fun _ => h0.trans_advS ?_⟩
-      -- the first iteration of the digit loop consumes
-      unfold consumeWhile
-      cases hl : s1.rest.length with
-      | zero => exact absurd (List.length_eq_zero_iff.mp hl) hne
-      | succ n =>
-        rw [loop_succ]
-        have hc : (!s1.done && s1.nextIs isDigit) = true := by
-          simp [hd', (not_done_iff s1).2 hne]
-        simp only [hc, if_true]
-        exact AdvS.of_consume hne (loop_adv _ _ (fun _ hc => .consume1 (whileCond_rest hc)) _ _)
+  have := consumeIntegerDigits_adv s1
+  exact ⟨h0.trans this.1, fun h => h0.trans_advS (this.2 h)⟩
 
 theorem consumeFractionalPart_adv (s : St) : Adv s (consumeFractionalPart s).2 := by
   unfold consumeFractionalPart
@@ -270,6 +275,18 @@ theorem consumeFractionalPart_adv (s : St) : Adv s (consumeFractionalPart s).2 :
       · exact absurd (Or.inl hn) h
     exact .consume (next_some_rest h') (consumeWhile_adv _ _)
 
+theorem consumeSign_adv (s : St) : Adv s (consumeSign s) := by
+  unfold consumeSign
+  split
+  · rename_i h; exact .consume1 (by rcases h with h | h <;> exact next_some_rest h)
+  · exact .refl _
+
+theorem expectDigit_adv (s : St) : Adv s (expectDigit s) := by
+  unfold expectDigit
+  split
+  · exact .error1 _
+  · exact .refl _
+
 theorem consumeExponentPart_adv (s : St) : Adv s (consumeExponentPart s).2 := by
   unfold consumeExponentPart
   split
@@ -279,20 +296,7 @@ theorem consumeExponentPart_adv (s : St) : Adv s (consumeExponentPart s).2 := by
       intro h'
       have := (next_none_iff s).2 h'
       exact h ⟨by simp [this], by simp [this]⟩
-    simp only
-    refine .consume hne ?_
-    generalize consumeRune s = s1
-    have h1 : Adv s1 (if s1.next = some 43 ∨ s1.next = some 45 then consumeRune s1 else s1) := by
-      split
-      · rename_i h; exact .consume1 (by rcases h with h | h <;> exact next_some_rest h)
-      · exact .refl _
-    refine h1.trans ?_
-    generalize (if s1.next = some 43 ∨ s1.next = some 45 then consumeRune s1 else s1) = s2
-    have h2 : Adv s2 (if (!s2.nextIs isDigit) = true then s2.errorf else s2) := by
-      split
-      · exact .error1 _
-      · exact .refl _
-    exact h2.trans (consumeWhile_adv _ _)
+    exact .consume hne ((consumeSign_adv _).trans ((expectDigit_adv _).trans (consumeWhile_adv _ _)))
 
 /-! ## Strings advance -/
 
@@ -506,11 +510,18 @@ theorem scanEllipsis_adv (s : St) (hne : s.rest ≠ []) : AdvS s (scanEllipsis s
       have h2' : (consumeRune (consumeRune s)).next = some 46 := Decidable.of_not_not h2
       exact c2.trans_adv (.consume1 (next_some_rest h2'))
 
+theorem consumeIntegerDigits_false (s : St) (h : (consumeIntegerDigits s).1 = false) : (consumeIntegerDigits s).2 = s := by
+  unfold consumeIntegerDigits at *
+  split
+  · rename_i h0; simp [h0] at h
+  · split
+    · rfl
+    · rename_i h0 h1; simp [h0, h1] at h
+
 /-- When `consumeIntegerPart` returns false it leaves a rune to report as illegal. -/
 theorem consumeIntegerPart_false_rest (s : St) (hne : s.rest ≠ []) (h : (consumeIntegerPart s).1 = false) :
     (consumeIntegerPart s).2.rest ≠ [] := by
   unfold consumeIntegerPart at *
-  simp only at *
   have key : (if s.next = some 45 ∧ isDigit s.peek = true then consumeRune s else s).rest ≠ [] := by
     split
     · rename_i h
@@ -525,11 +536,8 @@ theorem consumeIntegerPart_false_rest (s : St) (hne : s.rest ≠ []) (h : (consu
       simp [isDigit] at hp
     · exact hne
   generalize (if s.next = some 45 ∧ isDigit s.peek = true then consumeRune s else s) = s1 at *
-  split
-  · rename_i h0; simp [h0] at h
-  · split
-    · exact key
-    · rename_i h0 h1; simp [h0, h1] at h
+  rw [consumeIntegerDigits_false s1 h]
+  exact key
 
 theorem consumeName_false (s : St) (h : (consumeName s).1 = false) : (consumeName s).2 = s := by
   unfold consumeName at *
